@@ -1,18 +1,24 @@
 #!/bin/bash
-# verify_seed.sh <id>: confirm in the scratch worktree /tmp/seed-<id> that the seeded change
-# (a) keeps the pinned suite green, (b) makes the demonstration fail, (c) the demonstration passes without it.
-id="$1"; wt="/tmp/seed-$id"; out="$wt/out/verify.log"
+# verify_seed.sh <id> [worktree]: confirm in the scratch worktree (default /tmp/seed-<id>) that the seeded change
+# out/patch.diff (a) keeps the pinned suite green, (b) makes the demonstration fail, (c) the demonstration passes
+# without it. The library sources are reset to HEAD and the patch applied / reversed with git apply (never git stash:
+# refs/stash is shared between the worktrees of one repository).
+id="$1"; wt="${2:-/tmp/seed-$id}"; out="$wt/out/verify.log"
 cd "$wt" || exit 2
 export CARGO_TARGET_DIR="$wt/target"
 {
+  git checkout -- zlib-rs libz-rs-sys
+  git apply out/patch.diff || { echo "PATCH DOES NOT APPLY"; exit 2; }
   echo "== diff stat"; git diff --stat
   demo=test-libz-rs-sys/tests/seed_demo.rs
+  cp out/seed_demo.rs $demo
   echo "== demo WITH change (expect failure)"
   cargo nextest run -p test-libz-rs-sys --test seed_demo --no-fail-fast --offline 2>&1 | tail -4
   echo "== demo WITHOUT change (expect pass)"
-  git stash push -q -- zlib-rs libz-rs-sys
+  git apply -R out/patch.diff
+  git diff --stat -- zlib-rs libz-rs-sys
   cargo nextest run -p test-libz-rs-sys --test seed_demo --no-fail-fast --offline 2>&1 | tail -3
-  git stash pop -q
+  git apply out/patch.diff
   echo "== pinned suite WITH change, demo moved away (expect 353 passed)"
   mv "$demo" /tmp/seed_demo_$id.rs
   cargo nextest run --workspace --no-fail-fast --offline 2>&1 | tail -3
